@@ -167,6 +167,17 @@ def probe_wrappers(D, N, seed):
     m = np.asarray(ic.RandomMultiChannelICGenerator((base, ic.GaussianRandomField(D), ic.ScaledICGenerator(base, 2.0)))(N, key=key))
     res["multi_shape"] = list(m.shape)
     ok = ok and m.shape == (3,) + (N,) * D
+    # function form = sampled form for the WRAPPERS too (same key): a multi-channel generator of generators that offer
+    # a function form, scaled ones among them (how the key is split over the channels is not part of the contract)
+    import exponax as ex
+    subs = [ic.RandomGaussianBlobs(D), ic.ScaledICGenerator(ic.RandomGaussianBlobs(D, one_complement=True), 1.7), ic.RandomDiscontinuities(D)]
+    for C in (1, 2, 3):
+        mg = ic.RandomMultiChannelICGenerator(tuple(subs[:C]))
+        sampled = np.asarray(mg(N, key=key))
+        fun = np.asarray(mg.gen_ic_fun(key=key)(ex.make_grid(D, 1.0, N)))
+        e = float(np.max(np.abs(sampled - fun))) if sampled.shape == fun.shape else float("inf")
+        res[f"multi_function_form_C{C}"] = e
+        ok = ok and e < 1e-12
     # the normalisation options act on the field as a whole: zero mean removes the mean mode ONLY (every other Fourier
     # mode of the draw is untouched), unit std / unit max rescale by one global constant
     import jax.numpy as jnp
